@@ -1,6 +1,6 @@
 """C18 — spacing, bar lines, separators and comments never change the music: streams."""
 from ..core import Stream, hx, unhx
-from .. import mml
+from .. import mml, lexstream
 
 RULE = ("relayout: programs given as a list of complete commands (core language, controllers, script statements, macros; expression-valued arguments "
         "closed by ')' or ';') are written twice with independently chosen layout between the commands — blanks, tabs, CR/LF, '|', ';', and comments "
@@ -8,7 +8,8 @@ RULE = ("relayout: programs given as a list of complete commands (core language,
         "sep: the same command followed by each separator in turn. non-trivial = distinct outputs of programs with >= 3 commands")
 ASSUMPTIONS = ["layout is inserted only between complete commands; a line-continuation of a note length ('\\n' followed by '^') is not generated",
                "comment texts contain no line break (line comments) / no '*' (range comments)", "full-width variants are generated for commands without braces strings"]
-TRUSTED = ["the generator's tokenisation of a program into complete commands"]
+TRUSTED = ["the generator's tokenisation of a program into complete commands",
+           "Model.Lexer is tied to lexer.rs / source_cursor.rs by the `lexer` stream (identical token lists and lexer log); integers are unbounded in the model"]
 
 SEPS = [" ", "  ", "\t", "\n", "\r\n", " | ", ";", " ; ", "\n\n", " |\n"]
 COMMENT_TEXT = ["", "memo", "c d e", "TR(2) v10", "ドレミ", "x = [1", "end?", "  spaced  "]
@@ -86,4 +87,5 @@ def streams(tier, rng, P, only=None, cases=None):
         return None
     s1 = Stream("relayout", cases if (cases and only == "relayout") else mk(), lambda c, st, f: [], judge,
                 lambda c, i, m: i[1].get("bin1") if i[0] == "ok" and c["ntok"] >= 3 else None, "program vs re-laid-out program", timeout_case=20.0)
-    return [s for s in (s1,) if only in (None, s.name)]
+    s2 = lexstream.lex_stream(tier, rng, P, only, cases)
+    return [s for s in (s1, s2) if only in (None, s.name)]
